@@ -244,6 +244,9 @@ def component_static(cid, rng, A, params, nsolves):
     c.lines += fcol_lines(mat_cols(A))
     c.lines.append("FACTOR")
     c.steps.append(("FACTOR", [r[:] for r in A]))
+    if n <= REPR_LIMIT:
+        c.lines.append("FDUMP")
+        c.steps.append(("FDUMP", None))
     for k in range(nsolves):
         kind = ["unit", "dense", "sparse"][k % 3]
         v = rand_vec(rng, n, kind)
@@ -261,6 +264,9 @@ def component_history(cid, rng, A, params, nupd):
     c.lines += fcol_lines(mat_cols(A))
     c.lines.append("FACTOR")
     c.steps.append(("FACTOR", [r[:] for r in A]))
+    if n <= REPR_LIMIT:
+        c.lines.append("FDUMP")
+        c.steps.append(("FDUMP", None))
     for u in range(nupd):
         col = rng.randrange(n)
         how = rng.choice(["sparse", "sparse", "dense", "unit", "copy", "comb", "same", "zero"])
@@ -283,6 +289,9 @@ def component_history(cid, rng, A, params, nupd):
             v[rng.randrange(n)] = F(2)
         c.lines.append("FUPD %d %s" % (col, svec(v)))
         c.steps.append(("FUPD", (col, v)))
+        if n <= REPR_LIMIT:
+            c.lines.append("FDUMP")
+            c.steps.append(("FDUMP", None))
         for k in range(2):
             w = rand_vec(rng, n, rng.choice(["unit", "dense", "sparse"]))
             op = rng.choice(["FTRAN", "BTRAN"])
@@ -291,15 +300,29 @@ def component_history(cid, rng, A, params, nupd):
     return c
 
 
+REPR_LIMIT = 16         # the representation (struct factor_work) is dumped and run through the extracted model up to this dimension
 INVERSE_LIMIT = 12      # the verified elimination decides singularity up to this dimension; beyond it certificates are used
 
 
 def judge_component(ck, c, toks, qlist, qmeta, hist):
     """replay the bookkeeping of case c against its output lines; append model queries.
     One query per matrix state: the matrix, C's singularity claim for it (if any) and the solves made with it."""
-    ops = [t for t in toks if t[0] in ("FACTOR", "FTRAN", "BTRAN", "FUPDX", "FUPD")]
+    ops, dumps, curd = [], [], None
+    for t in toks:
+        if t[0] == "FDUMP":
+            curd = [t]
+            if len(t) > 1 and t[1] == "none":
+                ops.append(("FDUMPBLOCK", None))
+                curd = None
+        elif curd is not None:
+            curd.append(t)
+            if t[0] == "FDUMPEND":
+                ops.append(("FDUMPBLOCK", "\n".join(" ".join(x) for x in curd)))
+                curd = None
+        elif t[0] in ("FACTOR", "FTRAN", "BTRAN", "FUPDX", "FUPD"):
+            ops.append(t)
     it = iter(ops)
-    st = dict(cur=None, claim=None, what="", checks=[], idx=[], nq=0)
+    st = dict(cur=None, claim=None, what="", checks=[], idx=[], nq=0, dump=None)
 
     def bump(k):
         hist[k] = hist.get(k, 0) + 1
@@ -331,10 +354,18 @@ def judge_component(ck, c, toks, qlist, qmeta, hist):
             lines.append("%s %s | %s" % (kind, " ".join(q(t) for t in a), " ".join(x)))
         qlist.append("\n".join(lines))
         qmeta[qid] = (c, st["what"], claim, mode, st["idx"], [k for k, _, _ in st["checks"]])
+        if st["dump"] is not None:
+            # the same solves through the extracted model of the representation (Fac/Factor.v) + check_repr
+            rl = ["Q %s.r repr %d %d" % (qid, n, len(st["checks"])), st["dump"]]
+            rl += ["R " + " ".join(q(x) for x in r) for r in mat]
+            for (kind, a, x) in st["checks"]:
+                rl.append("%s %s | %s" % (kind, " ".join(q(t) for t in a), " ".join(x)))
+            qlist.append("\n".join(rl))
+            qmeta[qid + ".r"] = (c, st["what"], "repr", "repr", st["idx"], [k for k, _, _ in st["checks"]])
         st["checks"], st["idx"], st["claim"] = [], [], None
 
     def set_matrix(mat, claim, what):
-        st["cur"], st["claim"], st["what"] = mat, claim, what
+        st["cur"], st["claim"], st["what"], st["dump"] = mat, claim, what, None
 
     valid = False
     try:
@@ -351,6 +382,10 @@ def judge_component(ck, c, toks, qlist, qmeta, hist):
                 valid = nsing == 0
                 if not valid:
                     flush()
+            elif kind == "FDUMP":
+                t = next(it)
+                if valid and t[1] is not None:
+                    st["dump"] = t[1]
             elif kind in ("FTRAN", "BTRAN"):
                 t = next(it)
                 if not valid or t[1] == "NOFACTOR":
@@ -533,8 +568,27 @@ def main():
     cans = model_queries(qlist, M)
     print("# component model %.1fs, %d queries" % (time.time() - t1, len(qlist)), file=sys.stderr)
     nsolve = 0
+    nrepr = [0]
     for qid, (c, what, c_sing, mode, opidx, kinds) in qmeta.items():
         a = cans.get(qid)
+        if mode == "repr":
+            n = len(c.steps[0][1])
+            if not a or a[0] not in ("0", "1"):
+                ck.violation("model_%s.txt" % qid, c.text(), "model driver gave no answer for representation query %s (%s)" % (qid, a), no_input=True)
+                continue
+            bump("repr/check_repr=%s" % a[0])
+            nrepr[0] += 1
+            if a[0] != "1":
+                ck.violation("repr_%s.txt" % qid, c.text() + "# at: %s\n" % what,
+                             "the dumped factor_work does not represent the inverse of the current %dx%d matrix (extracted check_repr fails; %s)" % (n, n, what),
+                             match=dict(kind="repr-wrong"))
+            for f, k, si in zip(a[1:], kinds, opidx):
+                bump("repr/solve-%s/%s" % (k, "same" if f == "1" else "DIFFERENT"))
+                if f != "1":
+                    ck.violation("corr_repr_%s.txt" % qid, c.text() + "# step %d (%s)\n" % (si, c.steps[si][0]),
+                                 "correspondence Factor.%s vs mpq_ILLfactor_%s broke: the walk of the extracted model over the dumped representation gives another vector (%dx%d, step %d)"
+                                 % ("ftran" if k == "FT" else "btran", "ftran" if k == "FT" else "btran", n, n, si), no_input=True, match=dict(kind="corr-repr"))
+            continue
         if not a or a[0] not in ("S", "N", "X", "?"):
             ck.violation("model_%s.txt" % qid, c.text(), "model driver gave no answer for %s (%s)" % (qid, a), no_input=True)
             continue
@@ -578,6 +632,7 @@ def main():
     ck.cov["histogram"] = dict(sorted(hist.items()))
     ck.cov["tableau_rows_judged"] = nrows_judged
     ck.cov["solves_judged"] = nsolve
+    ck.cov["representations_checked"] = nrepr[0]
     ck.cov["exhaustive_small_matrices"] = n_exh
     ck.cov["exhaustive"] = bool(T)
     ck.cov["evaluations"] = len(cases) + len(comp)
